@@ -76,12 +76,15 @@ type StartFault struct {
 }
 
 type ServerSpec struct {
-	Tag              string `json:"tag"`
-	Proto            string `json:"proto"` // udp tcp gnet tls http fasthttp https quic
-	Listen           string `json:"listen"`
-	IdleTimeout      int    `json:"idle_timeout,omitempty"`
-	MaxConcurrent    int32  `json:"max_concurrent,omitempty"`
-	UDPThreads       int    `json:"udp_threads,omitempty"`
+	Tag           string `json:"tag"`
+	Proto         string `json:"proto"` // udp tcp gnet tls http fasthttp https quic
+	Listen        string `json:"listen"`
+	IdleTimeout   int    `json:"idle_timeout,omitempty"`
+	MaxConcurrent int32  `json:"max_concurrent,omitempty"`
+	UDPThreads    int    `json:"udp_threads,omitempty"`
+	// MultiRoutes: udp.multi_routes (answer from the address the query was
+	// sent to, learnt from the socket's ancillary data).
+	MultiRoutes      bool   `json:"multi_routes,omitempty"`
 	ClientAddrHeader string `json:"client_addr_header,omitempty"`
 	MTLS             bool   `json:"mtls,omitempty"` // verify_client_cert with the run's CA
 	QuicMaxStreams   int64  `json:"quic_max_streams,omitempty"`
@@ -157,6 +160,9 @@ type ClientConn struct {
 	PlainAfterFail bool `json:"plain_after_fail,omitempty"`
 	HTTP2          bool `json:"http2,omitempty"`
 	Coalesce       bool `json:"coalesce,omitempty"` // stream clients: write all frames whose time has come in one Write
+	// AltDst: send to the proxy's second address of the family (a wildcard
+	// UDP listener with multi_routes has to answer from that address).
+	AltDst bool `json:"alt_dst,omitempty"`
 }
 
 type EDNSSpec struct {
